@@ -41,3 +41,26 @@ EXC_BOX = [None]  # exception the next raise_exc body raises (stepping mode runs
 
 def raise_exc(i=0):
     raise EXC_BOX[0]
+
+
+# --- bodies that call other harness tasks through the app of the running invocation -------------
+def _task(name):
+    from pynenc import context
+    from pynenc.identifiers.task_id import TaskId
+    app = context.get_current_app()
+    return app.get_task(TaskId(__name__, name))
+
+
+def spawn_children(n=2):
+    """registers n child invocations (fire and forget) and returns their ids"""
+    t = _task("echo")
+    return [t(i).invocation_id for i in range(n)]
+
+
+def fail_with(msg="boom"):
+    raise ValueError(msg)
+
+
+def retry_once(token=0):
+    from pynenc.exceptions import RetryError
+    raise RetryError("again")
